@@ -108,10 +108,57 @@ Proof. destruct k; reflexivity. Qed.
 Lemma trim_left_kind k rest : trim_left_cut (kind_str k ++ rest) = kind_str k ++ rest.
 Proof. destruct k; reflexivity. Qed.
 
+(* a rendering neither starts nor ends with white space *)
+Lemma trim_space_id s b e : is_space b = false -> is_space e = false -> trim_space (b :: s ++ [e]) = b :: s ++ [e].
+Proof.
+  intros Hb He. unfold trim_space. rewrite drop_space_nospace by exact Hb.
+  replace (rev (b :: s ++ [e])) with (e :: rev (b :: s))
+    by (change (b :: s ++ [e]) with ((b :: s) ++ [e]); rewrite rev_app_distr; reflexivity).
+  rewrite drop_space_nospace by exact He.
+  change (rev (e :: rev (b :: s))) with (rev (rev (b :: s)) ++ [e]). rewrite rev_involutive. reflexivity.
+Qed.
+
+Lemma last_nospace (w : list byte) : w <> [] -> nospace w -> exists s e, w = s ++ [e] /\ is_space e = false.
+Proof.
+  intros Hne Hw. destruct (exists_last Hne) as (s & e & ->). exists s, e. split; auto.
+  unfold nospace in Hw. rewrite Forall_forall in Hw. apply Hw. apply in_or_app. right. left. reflexivity.
+Qed.
+
+Lemma join_rules_last L : L <> [] -> forallb plain_rule L = true ->
+  exists s e, join_rules L = s ++ [e] /\ is_space e = false.
+Proof.
+  induction L as [|r L IH]; [contradiction|]. intros _ HL.
+  cbn in HL. apply andb_true_iff in HL. destruct HL as [Hr HL].
+  destruct (plain_rule_facts r Hr) as (Rne & Rns & _).
+  destruct L as [|r2 L'].
+  - cbn [join_rules]. apply last_nospace; auto.
+  - destruct (IH ltac:(discriminate) HL) as (s & e & E & He).
+    change (join_rules (r :: r2 :: L')) with (r ++ [x2c; x20] ++ join_rules (r2 :: L')).
+    rewrite E. exists (r ++ [x2c; x20] ++ s), e. split; auto. rewrite <- !app_assoc. reflexivity.
+Qed.
+
+Lemma render_trim mk k L : forallb plain_rule L = true -> trim_space (render mk k L) = render mk k L.
+Proof.
+  intros HL.
+  assert (Hbody : exists s e, kind_str k ++ match L with [] => [] | _ :: _ => x20 :: join_rules L end = s ++ [e] /\ is_space e = false).
+  { destruct L as [|r L'].
+    - rewrite app_nil_r. destruct k; [exists (removelast s_next_line) | exists (removelast s_this_line) | exists (removelast s_start) | exists (removelast s_end)];
+        eexists; (split; [cbv; reflexivity | reflexivity]).
+    - destruct (join_rules_last (r :: L') ltac:(discriminate) HL) as (s & e & E & He).
+      rewrite E. exists (kind_str k ++ x20 :: s), e. split; auto. rewrite <- app_assoc. reflexivity. }
+  destruct Hbody as (s & e & E & He). unfold render. rewrite E.
+  destruct mk.
+  - change ([x23; x20] ++ s ++ [e]) with (x23 :: (x20 :: s) ++ [e]). apply trim_space_id; auto.
+  - change ([x2f; x2f; x20] ++ s ++ [e]) with (x2f :: (x2f :: x20 :: s) ++ [e]). apply trim_space_id; auto.
+  - replace ([x2f; x2a; x20] ++ (s ++ [e]) ++ [x20; x2a; x2f]) with (x2f :: (x2a :: x20 :: s ++ [e; x20; x2a]) ++ [x2f]).
+    + apply trim_space_id; auto.
+    + cbn [app]. rewrite <- !app_assoc. reflexivity.
+Qed.
+
 Theorem parse_render mk k L :
   forallb plain_rule L = true -> parse_ignore_comment (render mk k L) = Some (k, L).
 Proof.
-  intros HL. unfold parse_ignore_comment, render.
+  intros HL. unfold parse_ignore_comment. rewrite (render_trim mk k L HL). unfold render.
   destruct mk.
   - (* # *)
     cbn [app has_prefix]. replace (byte_eqb x2f x23) with false by reflexivity. cbn [andb].
